@@ -67,6 +67,25 @@ def clean_dir(d):
                 pass
 
 
+def ensure_pristine():
+    """fork this process' reference zygote now, i.e. before the process has executed any scenario"""
+    from . import pristine
+    # import everything a reference computation needs *before* the zygote is forked (imports only: nothing of the
+    # library is executed), so that its children do not pay for cold imports
+    import shexer.shaper                       # noqa: F401
+    import shexer.io.sparql.query              # noqa: F401
+    import shexer.io.line_reader.file_line_reader   # noqa: F401
+    import shexer.io.shex.formater.shex_serializer  # noqa: F401
+    import shexer.io.shacl.formater.shacl_serializer  # noqa: F401
+    import rdflib.plugins.sparql               # noqa: F401
+    import rdflib.compare                      # noqa: F401
+    import rdflib.plugins.parsers.notation3    # noqa: F401
+    import rdflib.plugins.parsers.ntriples     # noqa: F401
+    import rdflib.plugins.serializers.turtle   # noqa: F401
+    import gzip, zipfile, lzma, difflib        # noqa: F401,E401
+    pristine.get()
+
+
 def execute_scenario(mod, scenario, scratch_root):
     scratch = worker_scratch(scratch_root)
     clean_dir(scratch)
@@ -153,6 +172,7 @@ def _chunk_task(args):
     try:
         mod = load_prop(pid)
         known = load_known()
+        ensure_pristine()
     except Exception:
         part["harness_errors"] = [{"index": i, "harness_error": traceback.format_exc()} for i in indices]
         return part
@@ -309,6 +329,7 @@ def write_replay(pid, base, index, scenario, violation, out, minimised_from=None
 
 def replay(pid, path):
     mod = load_prop(pid)
+    ensure_pristine()
     with open(path) as f:
         doc = json.load(f)
     root = tempfile.mkdtemp(prefix="dsim-replay-")
@@ -338,6 +359,7 @@ def selftest_child(pid, tier, base, indices):
     """Executed in a fresh interpreter (possibly another PYTHONHASHSEED): print
     scenario digests, verdicts and log digests."""
     mod = load_prop(pid)
+    ensure_pristine()
     root = tempfile.mkdtemp(prefix="dsim-self-")
     res = {}
     try:
@@ -406,6 +428,7 @@ def determinism_selftest(pid, mod, tier, base, detail, n, scratch_root, workers)
 def run_check(pid, tier, base, workers=None, count=None, selftest=True):
     t0 = time.time()
     mod = load_prop(pid)
+    ensure_pristine()
     workers = workers or min(16, os.cpu_count() or 4)
     n = count if count is not None else mod.COUNTS[tier]
     scratch_root = tempfile.mkdtemp(prefix="dsim-%s-" % pid)
@@ -488,6 +511,7 @@ def run_check(pid, tier, base, workers=None, count=None, selftest=True):
 def _extra_task(args):
     pid, items, scratch_root, keep_tags = args
     mod = load_prop(pid)
+    ensure_pristine()
     part = {"agg": Agg(), "detail": {}, "violating": [], "harness_errors": []}
     for (tag, scenario) in items:
         faulthandler.dump_traceback_later(600, exit=True)
